@@ -240,7 +240,7 @@ fn generics_mutations(g: &syn::Generics) -> Vec<(String, syn::Generics)> {
     out
 }
 
-const GENERICS_POOL: [&str; 5] = ["<'a, 'b: 'a, T>", "<#[cfg(all())] 'a, T>", "<T: ?Sized + Tr<'static>, const N: usize = 3>", "<'a, T: 'a + for<'x> Tr<'x>>", "<'a: 'static, 'b: 'a + 'static, const N: usize>"];
+const GENERICS_POOL: [&str; 6] = ["<T = u8, const N: usize = 1>", "<'a, 'b: 'a, T>", "<#[cfg(all())] 'a, T>", "<T: ?Sized + Tr<'static>, const N: usize = 3>", "<'a, T: 'a + for<'x> Tr<'x>>", "<'a: 'static, 'b: 'a + 'static, const N: usize>"];
 const WHERE_POOL: [&str; 4] = ["where for<'x> Self: Tr<'x>", "where T: Tr, Self: Sized", "where for<'x> &'x Self: Tr<'x>, [u8; 2]: Sized", "where 'a: 'static, T: 'a"];
 
 const OTHER_ITEMS: [&str; 8] = ["fn f() {}", "trait Tr {}", "union U { a: u8, b: u16 }", "mod m {}", "const C: u8 = 0;", "type A = u8;", "static S: u8 = 0;", "impl X { fn f(&self) {} }"];
@@ -267,7 +267,7 @@ pub fn mutations(s: &State) -> Vec<State> {
     }
     if let Ok(item) = syn::parse_str::<syn::Item>(&s.item) {
         // renaming to raw identifiers / names the expansion itself uses
-        for name in ["r#type", "r#fn", "f", "state", "H", "other", "__x", "ñandú"] {
+        for name in ["r#type", "r#fn", "f", "state", "H", "other", "__x", "ñandú", "__placeholder"] {
             let id = match syn::parse_str::<syn::Ident>(name) {
                 Ok(i) => i,
                 Err(_) => continue,
@@ -476,6 +476,7 @@ pub fn judge(s: &State) -> Verdict {
                 Err(e) => Verdict::Bad("output-not-well-formed".into(), e),
                 Ok(items) => {
                     let mut errors = 0;
+                    let input_is_impl = matches!(syn::parse_str::<syn::Item>(&s.item), Ok(syn::Item::Impl(_)));
                     for it in &items {
                         match it {
                             OutItem::Error(m) => {
@@ -486,6 +487,13 @@ pub fn judge(s: &State) -> Verdict {
                             }
                             OutItem::Other(syn::Item::Macro(m)) => return Verdict::Bad("unexpected-macro-item".into(), m.to_token_stream().to_string()),
                             OutItem::Other(syn::Item::Verbatim(v)) => return Verdict::Bad("output-not-well-formed".into(), format!("verbatim item: {v}")),
+                            // what rustc's AST validation rejects although the tokens parse: defaults on the parameters of an impl
+                            // (only for struct / enum inputs: on a user impl whose own parameters carry defaults the input is at fault)
+                            OutItem::Impl { item, .. } if !input_is_impl && item.generics.params.iter().any(|p| match p {
+                                syn::GenericParam::Type(t) => t.default.is_some() || t.eq_token.is_some(),
+                                syn::GenericParam::Const(c) => c.default.is_some() || c.eq_token.is_some(),
+                                syn::GenericParam::Lifetime(_) => false,
+                            }) => return Verdict::Bad("output-not-well-formed".into(), format!("generic parameter defaults on a generated impl: impl{}", item.generics.to_token_stream())),
                             _ => {}
                         }
                     }
